@@ -15,13 +15,13 @@ type C16Inner2 struct {
 	X string
 	Z bool
 }
-type C16Deep struct{ C16Inner2 }     // X, Z at depth 1
-type C16DeepB struct{ C16Inner }     // X, Y at depth 1
-type C16Deeper struct {              // X, Z at depth 2, through a pointer
+type C16Deep struct{ C16Inner2 } // X, Z at depth 1
+type C16DeepB struct{ C16Inner } // X, Y at depth 1
+type C16Deeper struct {          // X, Z at depth 2, through a pointer
 	*C16Deep
 	W float64
 }
-type C16Deepest struct {             // X, Z at depth 3
+type C16Deepest struct { // X, Z at depth 3
 	C16Deeper
 	V uint8
 }
@@ -97,11 +97,11 @@ type C16PtrUnexp struct {
 // ---- methods on value and pointer receivers, promoted ones ----
 type C16M1 struct{ A int }
 
-func (C16M1) Foo() int            { return 1 }
-func (*C16M1) PFoo() string       { return "p" }
-func (C16M1) Add(a, b int) int    { return a + b }
-func (C16M1) Two() (int, error)   { return 0, nil }
-func (C16M1) Any() interface{}    { return nil }
+func (C16M1) Foo() int          { return 1 }
+func (*C16M1) PFoo() string     { return "p" }
+func (C16M1) Add(a, b int) int  { return a + b }
+func (C16M1) Two() (int, error) { return 0, nil }
+func (C16M1) Any() interface{}  { return nil }
 
 type C16M2 struct{ B int }
 
